@@ -47,17 +47,24 @@ inductive Tx where
   | up | peer
   deriving Repr, DecidableEq
 
-/-- An event object (`types.Event` with the parts of its `Data` the path touches). -/
-structure Ev where
+/-- The parts of an event that are fixed once `processEvent` has returned: identity, routing
+information and the payload's fields (`types.Event` minus `SampleRate`). -/
+structure Core where
   sid : Nat                  -- the harness' span id field (= object id of the arriving event)
   tid : Nat                  -- trace id, 0: none
   host : Nat                 -- APIHost (codes: < 10 Honeycomb endpoints, ≥ 10 peer addresses)
   key : Nat                  -- APIKey
   ds : Nat                   -- Dataset
-  rate : Nat                 -- SampleRate
   stressed : Bool            -- meta.stressed
   probe : Option Bool        -- meta.refinery.probe (nullable bool)
   fields : List (Nat × Nat)  -- the user's fields
+  deriving Repr, DecidableEq
+
+/-- An event object: `SampleRate` is kept apart because `dealWithSentTrace` rewrites it on a span
+that has been waiting in the collector's queue. -/
+structure Ev where
+  c : Core
+  rate : Nat
   deriving Repr, DecidableEq
 
 structure BKey where
@@ -66,7 +73,7 @@ structure BKey where
   ds : Nat
   deriving Repr, DecidableEq
 
-def keyOf (e : Ev) : BKey := ⟨e.host, e.key, e.ds⟩
+def keyOf (e : Ev) : BKey := ⟨e.c.host, e.c.key, e.c.ds⟩
 
 /-- One HTTP request made by a transmission. -/
 structure Req where
@@ -139,7 +146,7 @@ structure Enq where
 inductive Op where
   | stress (on : Bool)
   /-- an event arrives on the incoming / peer listener; `owner = none`: this node owns the trace;
-  `e.sid`, `e.stressed` are ignored (set by the step); `h` is the stress hash of `e.tid` -/
+  `e.c.sid`, `e.c.stressed` are ignored (set by the step); `h` is the stress hash of `e.c.tid` -/
   | span (via : Via) (owner : Option Nat) (e : Ev) (h : Nat)
   | work
   | flush (tx : Tx)
@@ -152,64 +159,72 @@ inductive Out where
   | flush (n : Nat) (q : List (BKey × List (Nat × Ev))) (reqs : List Req)
   deriving Repr
 
-def blank : Ev := ⟨0, 0, 0, 0, 0, 0, false, none, []⟩
+def blank : Ev := ⟨⟨0, 0, 0, 0, 0, false, none, []⟩, 0⟩
 
 def init : St := { store := fun _ => blank }
+
+/-- `ProcessSpanImmediately`: the decision (recorded one, else the deterministic rule) and the
+decision record afterwards. -/
+def immediate (c : Cfg) (sent : AList Nat Dec) (tid h : Nat) : Dec × AList Nat Dec :=
+  match sent.get tid with
+  | some d => (d, sent)
+  | none => (recordOf (hashRule c h), sent.put tid (recordOf (hashRule c h)))
+
+/-- The rest of `ProcessSpanImmediately` and of `processEvent` for a span `e1` (object `s.next`)
+that stress relief keeps: queued upstream, then the probe. -/
+def keptStep (fixed : Bool) (s : St) (owner : Option Nat) (e0 e1 : Ev) (sent' : AList Nat Dec) :
+    St × Out :=
+  let o := s.next
+  let enqU : Enq := ⟨.up, o, keyOf e1, e1.c.probe⟩
+  let up' := enq s.up (keyOf e1) o
+  let kept' := s.kept ++ [(o, e0)]
+  match fixed, owner with
+  | false, none =>
+    -- the queued event itself is marked as probe; the trace is ours: nothing is forwarded
+    ({ s with next := o + 1, store := upd s.store o { e1 with c := { e1.c with probe := some true } },
+              sent := sent', up := up', kept := kept' }, .span o [enqU])
+  | false, some a =>
+    -- the queued event itself is marked as probe, re-addressed and queued for the peer
+    let e2 : Ev := { e1 with c := { e1.c with probe := some true, host := a } }
+    ({ s with next := o + 1, store := upd s.store o e2, sent := sent', up := up',
+              peer := enq s.peer (keyOf e2) o, kept := kept' },
+      .span o [enqU, ⟨.peer, o, keyOf e2, e2.c.probe⟩])
+  | true, none =>
+    ({ s with next := o + 1, store := upd s.store o e1, sent := sent', up := up', kept := kept' },
+      .span o [enqU])
+  | true, some a =>
+    -- the probe is a copy: a second object
+    let p : Ev := { e1 with c := { e1.c with probe := some true, host := a } }
+    ({ s with next := o + 2, store := upd (upd s.store o e1) (o + 1) p, sent := sent', up := up',
+              peer := enq s.peer (keyOf p) (o + 1), kept := kept' },
+      .span o [enqU, ⟨.peer, o + 1, keyOf p, p.c.probe⟩])
 
 /-- `Router.processEvent` for one arriving event. -/
 def spanStep (fixed : Bool) (c : Cfg) (s : St) (via : Via) (owner : Option Nat) (e : Ev) (h : Nat) :
     St × Out :=
   let o := s.next
-  let e0 : Ev := { e with sid := o, stressed := false }
-  if e.probe = some true then
+  let e0 : Ev := { e with c := { e.c with sid := o, stressed := false } }
+  if e.c.probe = some true then
     -- a probe from another refinery: dropped
     ({ s with next := o + 1, store := upd s.store o e0 }, .span o [])
-  else if e.tid = 0 then
+  else if e.c.tid = 0 then
     -- not part of a trace: upstream
     ({ s with next := o + 1, store := upd s.store o e0, up := enq s.up (keyOf e0) o },
-      .span o [⟨.up, o, keyOf e0, e0.probe⟩])
+      .span o [⟨.up, o, keyOf e0, e0.c.probe⟩])
   else if s.stressed then
-    -- ProcessSpanImmediately
-    let found := s.sent.get e.tid
-    let d := match found with
-      | some d => d
-      | none => recordOf (hashRule c h)
-    let sent' := match found with
-      | some _ => s.sent
-      | none => s.sent.put e.tid d
-    if d.keep = false then
-      ({ s with next := o + 1, store := upd s.store o e0, sent := sent' }, .span o [])
+    let ds := immediate c s.sent e.c.tid h
+    if ds.1.keep = false then
+      ({ s with next := o + 1, store := upd s.store o e0, sent := ds.2 }, .span o [])
     else
-      let e1 : Ev := { e0 with stressed := true, rate := mergeRate e0.rate d.rate }
-      let enqU : Enq := ⟨.up, o, keyOf e1, e1.probe⟩
-      let up' := enq s.up (keyOf e1) o
-      let kept' := s.kept ++ [(o, e0)]
-      match fixed, owner with
-      | false, none =>
-        -- the queued event itself is marked as probe; the trace is ours: nothing is forwarded
-        ({ s with next := o + 1, store := upd s.store o { e1 with probe := some true },
-                  sent := sent', up := up', kept := kept' }, .span o [enqU])
-      | false, some a =>
-        -- the queued event itself is marked as probe, re-addressed and queued for the peer
-        let e2 : Ev := { e1 with probe := some true, host := a }
-        ({ s with next := o + 1, store := upd s.store o e2, sent := sent', up := up',
-                  peer := enq s.peer (keyOf e2) o, kept := kept' },
-          .span o [enqU, ⟨.peer, o, keyOf e2, e2.probe⟩])
-      | true, none =>
-        ({ s with next := o + 1, store := upd s.store o e1, sent := sent', up := up', kept := kept' },
-          .span o [enqU])
-      | true, some a =>
-        -- the probe is a copy: a second object
-        let p : Ev := { e1 with probe := some true, host := a }
-        ({ s with next := o + 2, store := upd (upd s.store o e1) (o + 1) p, sent := sent', up := up',
-                  peer := enq s.peer (keyOf p) (o + 1), kept := kept' },
-          .span o [enqU, ⟨.peer, o + 1, keyOf p, p.probe⟩])
+      -- decorated and sent: meta.stressed, merged sample rate
+      keptStep fixed s owner e0
+        { e0 with c := { e0.c with stressed := true }, rate := mergeRate e0.rate ds.1.rate } ds.2
   else
     match owner with
     | some a =>
-      let e2 : Ev := { e0 with host := a }
+      let e2 : Ev := { e0 with c := { e0.c with host := a } }
       ({ s with next := o + 1, store := upd s.store o e2, peer := enq s.peer (keyOf e2) o },
-        .span o [⟨.peer, o, keyOf e2, e2.probe⟩])
+        .span o [⟨.peer, o, keyOf e2, e2.c.probe⟩])
     | none =>
       match via with
       | .incoming => ({ s with next := o + 1, store := upd s.store o e0, qIn := s.qIn ++ [o] }, .span o [])
@@ -218,18 +233,17 @@ def spanStep (fixed : Bool) (c : Cfg) (s : St) (via : Via) (owner : Option Nat) 
 /-- `CollectorWorker.processSpan` for the span `o` taken from a queue. -/
 def processSpan (s : St) (o : Nat) (via : Via) : St × Out :=
   let e := s.store o
-  match s.live.get e.tid with
-  | some l => ({ s with live := s.live.put e.tid (l ++ [o]) }, .work (some (o, via)) [])
+  match s.live.get e.c.tid with
+  | some l => ({ s with live := s.live.put e.c.tid (l ++ [o]) }, .work (some (o, via)) [])
   | none =>
-    match s.sent.get e.tid with
+    match s.sent.get e.c.tid with
     | some d =>
       -- dealWithSentTrace
       if d.keep then
-        let e' : Ev := { e with rate := mergeRate e.rate d.rate }
-        ({ s with store := upd s.store o e', up := enq s.up (keyOf e') o },
-          .work (some (o, via)) [⟨.up, o, keyOf e', e'.probe⟩])
+        ({ s with store := upd s.store o { e with rate := mergeRate e.rate d.rate }, up := enq s.up (keyOf e) o },
+          .work (some (o, via)) [⟨.up, o, keyOf e, e.c.probe⟩])
       else (s, .work (some (o, via)) [])
-    | none => ({ s with live := s.live.put e.tid [o] }, .work (some (o, via)) [])
+    | none => ({ s with live := s.live.put e.c.tid [o] }, .work (some (o, via)) [])
 
 /-- One iteration of `CollectorWorker.collect`: the peer queue is served first. -/
 def workStep (s : St) : St × Out :=
@@ -244,7 +258,7 @@ def workStep (s : St) : St × Out :=
 def sendBatch (store : Nat → Ev) (tx : Tx) (l : List Nat) : List Req :=
   match l with
   | [] => []
-  | o :: _ => [⟨tx, (store o).host, (store o).key, (store o).ds, l.map store⟩]
+  | o :: _ => [⟨tx, (store o).c.host, (store o).c.key, (store o).c.ds, l.map store⟩]
 
 def sendAll (store : Nat → Ev) (tx : Tx) (b : Batches) : List Req :=
   b.flatMap (fun kb => sendBatch store tx kb.2)
@@ -257,11 +271,11 @@ def countObjs (b : Batches) : Nat := (b.map (fun kb => kb.2.length)).sum
 def flushStep (s : St) (tx : Tx) : St × Out :=
   match tx with
   | .up =>
-    let reqs := sendAll s.store .up s.up
-    ({ s with up := [], wire := s.wire ++ reqs }, .flush (countObjs s.up) (pendingView s.store s.up) reqs)
+    ({ s with up := [], wire := s.wire ++ sendAll s.store .up s.up },
+      .flush (countObjs s.up) (pendingView s.store s.up) (sendAll s.store .up s.up))
   | .peer =>
-    let reqs := sendAll s.store .peer s.peer
-    ({ s with peer := [], wire := s.wire ++ reqs }, .flush (countObjs s.peer) (pendingView s.store s.peer) reqs)
+    ({ s with peer := [], wire := s.wire ++ sendAll s.store .peer s.peer },
+      .flush (countObjs s.peer) (pendingView s.store s.peer) (sendAll s.store .peer s.peer))
 
 def step (fixed : Bool) (c : Cfg) (s : St) : Op → St × Out
   | .stress on => ({ s with stressed := on }, .rule (effRate c) (bound c))
